@@ -497,7 +497,7 @@ pub fn judge_circuit(c: &Circ) -> (Vec<Finding>, JudgeStats) {
     let exp = oracle_circuit(c);
     let n = 2 * c.n;
     let mut stats = JudgeStats { oracle_exact: exp.is_exact(), nonzero: true, n_bnd: n, ..Default::default() };
-    let qc = to_quizx(c);
+    let qc = crate::gen::circuit::to_quizx_layout(c);
     let t4 = guarded(|| qc.to_tensor4());
     let tf = guarded(|| qc.to_tensorf());
     let out = judge_tensors("Circuit", n, &exp, t4, tf, &mut stats, &|_: &[Cf], _: &[Cf]| None);
